@@ -30,6 +30,27 @@ var gsvdFams = []gsvdFam{
 	// column j of both matrices is of size 2^(-6j): a column-pivoted QR keeps the
 	// natural order, so the results do not depend on whether Dggsvp3 pivots
 	{"colgraded", func(m, p, n int) (M, M) { return colGraded(m, n, 55), colGraded(p, n, 56) }},
+	// magnitude ladders across the two rank thresholds tola ~ |A|*eps and tolb ~ |B|*eps:
+	// one matrix is 2^40 times an integer matrix, the other has rows of size
+	// 1, 2^-10, 2^-20, ... (all of them far above its own threshold, most of them
+	// below the threshold of the big matrix)
+	{"Abig-Brows", func(m, p, n int) (M, M) { return colGraded(m, n, 57).scale(0x1p+40), rowLadder(p, n, 58) }},
+	{"Bbig-Arows", func(m, p, n int) (M, M) { return rowLadder(m, n, 59), colGraded(p, n, 60).scale(0x1p+40) }},
+	{"Asmall-Brows", func(m, p, n int) (M, M) {
+		return intGeneral(m, n, 3, lcgFor(61, m, n)).scale(0x1p-40), rowLadder(p, n, 62).scale(0x1p+10)
+	}},
+}
+
+// rowLadder is colGraded (column pivoting is a no-op) with row i additionally
+// scaled by 2^(-10*min(i,4)).
+func rowLadder(r, c, seed int) M {
+	m := colGraded(r, c, seed)
+	for i := 0; i < r; i++ {
+		for j := 0; j < c; j++ {
+			m.set(i, j, math.Ldexp(m.at(i, j), -10*min(i, 4)))
+		}
+	}
+	return m
 }
 
 // colGraded has non-zero integer entries in {±1, ±2, ±3} times 2^(-6j) in column j.
@@ -151,6 +172,7 @@ func runDggsvd3(t *vlib.T, m, p, n int, f gsvdFam, ldx int) {
 	type result struct {
 		k, l        int
 		alpha, beta []float64
+		u, v, q     M
 	}
 	var ref *result
 	outcome := ""
@@ -281,10 +303,26 @@ func runDggsvd3(t *vlib.T, m, p, n int, f gsvdFam, ldx int) {
 				}
 			}
 		}
-		cur := &result{k, l, alpha, beta}
+		cur := &result{k: k, l: l, alpha: alpha, beta: beta}
+		if us != nil {
+			cur.u = us.toM()
+		}
+		if vs != nil {
+			cur.v = vs.toM()
+		}
+		if qs != nil {
+			cur.q = qs.toM()
+		}
 		if ref == nil {
 			ref = cur
 		} else {
+			// a factor computed with fewer job flags is the same sequence of
+			// operations: it must agree with the factor of the all-vectors run
+			for name, pair := range map[string][2]M{"U": {cur.u, ref.u}, "V": {cur.v, ref.v}, "Q": {cur.q, ref.q}} {
+				if pair[0].a != nil && pair[1].a != nil && cur.k == ref.k && cur.l == ref.l {
+					chk(t, "ggsvd3-factor-vs-all-vectors-run", ratio(fro(sub(pair[0], pair[1])), dim, 1), thresh, ctx+" "+name)
+				}
+			}
 			if cur.k != ref.k || cur.l != ref.l {
 				t.Failf("(k,l)=(%d,%d) differs from (%d,%d) obtained with all vectors [%s]", k, l, ref.k, ref.l, ctx)
 			} else if !(maxDiff(alpha, ref.alpha) <= thresh*eps && maxDiff(beta, ref.beta) <= thresh*eps) {
@@ -651,6 +689,12 @@ func checkGsvdRanks(t *vlib.T, a, b M, k, l int, ctx string) {
 	if rs, clear := numRank(st); clear && k+l != rs {
 		finding(t, "dggsvp3-no-pivoting", "k+l=%d but [A;B] has rank %d [%s]", k+l, rs, ctx)
 	}
+	// Sharper: the documented threshold tolb = max(p,n)*|B|*eps decides l (a failure
+	// here that is not accompanied by one of the findings above is attributed, or
+	// not, by gsvdAttribute like every other failure of the case).
+	if rb, clear := docRank(b, a.c); clear && l != rb {
+		t.Failf("l=%d but B has %d singular values above tolb = max(p,n)*|B|*eps [%s]", l, rb, ctx)
+	}
 }
 
 var (
@@ -764,4 +808,22 @@ func countRQ(t *vlib.T, a, b M, n, k, l int) {
 			t.Count("gsvd_rq_of_A11_k>=2_pivoting_noop", 1)
 		}
 	}
+}
+
+// docRank counts the singular values of b above the documented rank threshold
+// max(rows, n)*|b|_F*eps of Dggsvd3; the decision is clear when no singular
+// value lies within a factor 100 of the threshold.
+func docRank(b M, n int) (rank int, clear bool) {
+	sv := jacobiSV(b)
+	tol := fmax(b.r, n) * fro(b) * eps
+	clear = true
+	for _, s := range sv {
+		switch {
+		case s > 100*tol:
+			rank++
+		case s > tol/100:
+			clear = false
+		}
+	}
+	return rank, clear
 }
